@@ -101,3 +101,78 @@ diag_m = Fn(U + 'diag_matrix', ret='r', level='L1',
             hints=[('for i in 0..n', 'before', 'proof { assert forall|r: int, c: int| 0 <= r < n && 0 <= c < n implies rv(#[trigger] at2(new.v@, n as int, r, c)) == 0real by { lemma_idx(r, c, n as int, n as int); } }')])
 UNITS.append(Unit('C01_layout', ('C01', 'C15'), [r2c, c2r, diag_m], use=core.core_stubs() + [c15.is_matrix], types=core.TYPES, type_spec=core.TYPE_SPEC, spec=c15.SPEC, preludes=PRE, broadcast=BC, level='L1',
                   notes='row-major <-> column-major conversions move entry (i,j) to its transposed flat position and back for every shape; diag_matrix puts the given values on the diagonal of a zero matrix'))
+
+# ---------------------------------------------------------------- solve_sys (several right-hand sides) and invert_matrix
+SYS_SPEC = r'''
+/// column s of a row-major matrix with `w` columns and n rows
+pub open spec fn colv(m: Seq<f64>, n: int, w: int, s: int) -> Seq<f64> { Seq::new(n as nat, |i: int| m[i * w + s]) }
+/// every column of x solves the system with the matching column of b (by the route of property C01)
+pub open spec fn sys_solved(a: Seq<f64>, n: int, b: Seq<f64>, x: Seq<f64>, w: int, upto: int) -> bool {
+    forall|s: int| 0 <= s < upto ==> #[trigger] solved_by_route(a, n, colv(b, n, w, s), colv(x, n, w, s))
+}
+'''
+SQA = '(exists|k: int| 0 <= k && #[trigger] (k * k) == a@.len())'
+SYSV = '(exists|k: int| 0 < k && #[trigger] (k * k) == a@.len() && (b@.len() as int) % k == 0)'
+UNWRAP_SA = ('is_square(a).unwrap()', 'match is_square(a) { Ok(v_) => v_, Err(_) => ::core::panicking::panic("unwrap") }', 'R2b')
+UNWRAP_MB = ('is_matrix(b, n).unwrap()', 'match is_matrix(b, n) { Ok(v_) => v_, Err(_) => ::core::panicking::panic("unwrap") }', 'R2b')
+SEG = 'solutions@.subrange(s * n, (s + 1) * n)'
+SYS_INV = ['n * n == a@.len()', 'n > 0', 'nsys * n == b0.len()', 'b0.len() <= 0x7fff_ffff', 'a@.len() <= 0x7fff_ffff', 'b.v@.len() == b0.len()',
+           'is_transpose(b0, b.v@, n as int, nsys as int)', 'solutions@.len() == i * n',
+           'C01.solve_sys.cols_done:: forall|s: int| 0 <= s < i ==> #[trigger] solved_by_route(a@, n as int, colv(b0, n as int, nsys as int, s), ' + SEG + ')']
+SYS_BODY_START = ('lemma_row(i as int, nsys as int, n as int); assert((i + 1) * n <= nsys * n); '
+                  'assert forall|q: int| 0 <= q < n implies #[trigger] b.v@.subrange(i * n, (i + 1) * n)[q] == colv(b0, n as int, nsys as int, i as int)[q] by '
+                  '{ lemma_idx(q, i as int, n as int, nsys as int); lemma_idx(i as int, q, nsys as int, n as int); assert(at2(b.v@, n as int, i as int, q) == at2(b0, nsys as int, q, i as int)); } '
+                  'assert(b.v@.subrange(i * n, (i + 1) * n) =~= colv(b0, n as int, nsys as int, i as int));')
+SYS_BODY_END = ('assert forall|s: int| 0 <= s < i + 1 implies #[trigger] solved_by_route(a@, n as int, colv(b0, n as int, nsys as int, s), ' + SEG + ') by { '
+                'lemma_row(s, i as int + 1, n as int); lemma_row(i as int, i as int + 1, n as int); if s < i { lemma_row(s, i as int, n as int); assert(' + SEG + ' =~= pre_s.subrange(s * n, (s + 1) * n)); } else { assert(' + SEG + ' =~= sol@); } }')
+solve_sys = Fn(U + 'solve_sys', ret='x', level='L1', valid=SYSV, panics={1: 'REJECT', 2: 'REJECT', 3: 'DEAD', 4: 'DEAD'}, rewrites=[UNWRAP_SA, UNWRAP_MB,
+               ('if is_positive_definite(a) {', 'if ({ let t_ = is_positive_definite(a); proof { pd_ = t_; } t_ }) {', 'R31: the routing test bound to a ghost name'),
+               ('cholesky_solve(&l, &b[(i * n)..((i + 1) * n)])', '({ proof { assert(chol_post(a@, chol, n as int)); } let x_ = cholesky_solve(&l, &b[(i * n)..((i + 1) * n)]); '
+                'proof { assert(chol_rows(a@, l@, n as int, n as int)); assert(solved_by_route(a@, n as int, colv(b0, n as int, nsys as int, i as int), x_@)); } x_ })', 'R31'),
+               ('lu_solve(&lu, &piv, &b[(i * n)..((i + 1) * n)])', '({ let x_ = lu_solve(&lu, &piv, &b[(i * n)..((i + 1) * n)]); '
+                'proof { assert(lu_solved(lu@, n as int, piv@, colv(b0, n as int, nsys as int, i as int), x_@)); assert(solved_by_route(a@, n as int, colv(b0, n as int, nsys as int, i as int), x_@)); } x_ })', 'R31')],
+               requires=['C01.solve_sys.machine:: 0 < a@.len() <= 0x7fff_ffff && b@.len() <= 0x7fff_ffff'],
+               ensures=['C01.solve_sys.valid:: ' + SYSV, 'C01.solve_sys.len:: x@.len() == b@.len()',
+                        'C01.solve_sys.columns:: forall|n: int| 0 < n && n * n == a@.len() ==> #[trigger] sys_solved(a@, n, b@, x@, (b@.len() as int) / n, (b@.len() as int) / n)'],
+               pre_body='let ghost b0 = b@;',
+               loops={1: {'invariant': SYS_INV + ['chol_post(a@, chol, n as int)', 'chol == Some(l)', 'pd_test(a@, n as int)'], 'body_ghost': 'let ghost pre_s = solutions@;', 'body_start': SYS_BODY_START, 'body_end': SYS_BODY_END},
+                      2: {'invariant': SYS_INV + ['is_perm32(piv@, n as int)', 'bounded(lu@, n as int, n as int)', 'lu@.len() == n * n', '!pd_test(a@, n as int) || !no_bad_pivot(a@, n as int)'],
+                          'body_ghost': 'let ghost pre_s = solutions@;', 'body_start': SYS_BODY_START, 'body_end': SYS_BODY_END}},
+               hints=[('let nsys =', 'before', 'proof { lemma_sq_unique(n as int, a@.len() as int); assert(n > 0) by { if n == 0 { assert(0 * 0 == 0); } } }'),
+                      ('let mut solutions =', 'before', 'let ghost mut pd_ = false; proof { lemma_mul_div(n as int, nsys as int); assert(nsys * n == n * nsys) by(nonlinear_arith); }'),
+                      ('if let Some(l) = chol', 'before', 'proof { if pd_ { assert(chol_post(a@, chol, n as int)); } assert(0 * n == 0); }'),
+                      ('col_to_row_major(&solutions, n)', 'replace',
+                       '({ proof { lemma_mul_div(n as int, nsys as int); } let r_ = col_to_row_major(&solutions, n); proof { '
+                       'assert forall|s: int| 0 <= s < nsys implies #[trigger] solved_by_route(a@, n as int, colv(b0, n as int, nsys as int, s), colv(r_@, n as int, nsys as int, s)) by { '
+                       'lemma_row(s, nsys as int, n as int); '
+                       'assert forall|q: int| 0 <= q < n implies #[trigger] colv(r_@, n as int, nsys as int, s)[q] == solutions@.subrange(s * n, (s + 1) * n)[q] by '
+                       '{ lemma_idx(q, s, n as int, nsys as int); lemma_idx(s, q, nsys as int, n as int); assert(at2(solutions@, n as int, s, q) == at2(r_@, nsys as int, q, s)); } '
+                       'assert(colv(r_@, n as int, nsys as int, s) =~= solutions@.subrange(s * n, (s + 1) * n)); } '
+                       'assert(sys_solved(a@, n as int, b0, r_@, nsys as int, nsys as int)); } r_ })')])
+UNITS.append(Unit('C01_solve_sys', ('C01', 'C11'), [solve_sys], use=[c01.is_square, c15.is_matrix, is_pd, t.try_chol, t.chol_solve, c01.lu, t.lu_solve, r2c, c2r] + core.core_stubs(),
+                  types=core.TYPES, type_spec=core.TYPE_SPEC, spec=SPEC + SYS_SPEC, preludes=PRE, broadcast=BC, level='L1', rlimit=200,
+                  notes='solve_sys: column c of the result solves the system with column c of the right-hand side (row-major <-> column-major round trip), by the same route as solve; '
+                        'shape mismatches rejected'))
+
+INV_SPEC = r'''
+pub open spec fn is_identity(m: Seq<f64>, n: int) -> bool {
+    m.len() == n * n && forall|i: int, j: int| 0 <= i < n && 0 <= j < n ==> rv(#[trigger] at2(m, n, i, j)) == (if i == j { 1real } else { 0real })
+}
+/// every column of r solves  A r_c = e_c  (by the route of property C01): r is the inverse computed column by column
+pub open spec fn inverse_of(a: Seq<f64>, n: int, r: Seq<f64>) -> bool {
+    exists|id: Seq<f64>| #[trigger] is_identity(id, n) && sys_solved(a, n, id, r, n, n)
+}
+'''
+UNWRAP_SM = ('is_square(matrix).unwrap()', 'match is_square(matrix) { Ok(v_) => v_, Err(_) => ::core::panicking::panic("unwrap") }', 'R2b')
+SQMX = '(exists|k: int| 0 <= k && #[trigger] (k * k) == matrix@.len())'
+invert = Fn(U + 'invert_matrix', ret='r', level='L1', valid=SQMX, panics={1: 'REJECT'}, rewrites=[UNWRAP_SM],
+            requires=['C01.invert.machine:: 0 < matrix@.len() <= 0x7fff_ffff'],
+            ensures=['C01.invert.valid:: ' + SQMX, 'C01.invert.len:: r@.len() == matrix@.len()',
+                     'C01.invert.columns:: forall|n: int| 0 < n && n * n == matrix@.len() ==> #[trigger] inverse_of(matrix@, n, r@)'],
+            hints=[('let ones =', 'before', 'proof { lemma_sq_unique(n as int, matrix@.len() as int); assert(n > 0) by { if n == 0 { assert(0 * 0 == 0); } } }'),
+                   ('solve_sys(matrix, &ones)', 'replace',
+                    '({ proof { lemma_mul_div(n as int, n as int); } let r_ = solve_sys(matrix, &ones); proof { assert(is_identity(ones.v@, n as int)); assert(sys_solved(matrix@, n as int, ones.v@, r_@, n as int, n as int)); '
+                    'assert(inverse_of(matrix@, n as int, r_@)); } r_ })')])
+UNITS.append(Unit('C01_invert', ('C01', 'C11'), [invert], use=[c01.is_square, solve_sys, diag_m] + core.core_stubs(), types=core.TYPES, type_spec=core.TYPE_SPEC,
+                  spec=SPEC + SYS_SPEC + INV_SPEC, preludes=PRE, broadcast=BC, level='L1', rlimit=100,
+                  notes='invert_matrix: column c of the result solves A x = e_c (solve_sys applied to the identity built by diag_matrix); non-square input rejected'))
